@@ -80,6 +80,55 @@ def introM (s : Proof) (id : IId) (sub : List Item) : Except Err Proof :=
       | .error e => .error e
       | .ok s1 => closeIntro s1 [] sub.dropLast
 
+/-- The forward methods that may close the goal (`rewrite_fact`, `rewrite_fact_with_prev`,
+`apply_forward_step`): insert the new fact before the goal; if the line behind it is a gap and an
+earlier visible line (in particular the new fact) proves its sequent, `replace_id` it away. -/
+def forwardCloseM (s : Proof) (id : IId) (r : Nat) (p : List IId) (th : Option Seq) : Except Err Proof :=
+  match forwardFact s id r p th with
+  | .error e => .error e
+  | .ok s1 =>
+    let id2 := incrId id 1
+    match findItem s1 id2 with
+    | none => .error .proofState
+    | some g =>
+      if g.rule = ruleSorry then
+        match g.th with
+        | none => .error .index
+        | some gth =>
+          match findGoal s1 gth id2 with
+          | .error e => .error e
+          | .ok none => .ok s1
+          | .ok (some new) => replaceId s1 id2 new
+      else .ok s1
+
+/-! ### the search side of the methods whose `search` is a filter on the shape of goal and fact -/
+
+/-- What the filters look at: how many facts are selected and the outermost connective of the goal
+and of the first fact. -/
+structure Sel where
+  nfacts : Nat
+  goalForall : Bool
+  goalImplies : Bool
+  goalExists : Bool
+  factForall : Bool
+  factExists : Bool
+  deriving Repr, DecidableEq
+
+/-- `introduction.search`: no facts, goal `!x. …` or `A --> B`. -/
+def searchIntroduction (c : Sel) : Bool := c.nfacts == 0 && (c.goalForall || c.goalImplies)
+/-- `exists_elim.search`: exactly one fact, of the form `?x. …`. -/
+def searchExistsElim (c : Sel) : Bool := c.nfacts == 1 && c.factExists
+/-- `forall_elim.search`: exactly one fact, of the form `!x. …`. -/
+def searchForallElim (c : Sel) : Bool := c.nfacts == 1 && c.factForall
+/-- `inst_exists_goal.search`: no facts, goal `?x. …`. -/
+def searchInstExistsGoal (c : Sel) : Bool := c.nfacts == 0 && c.goalExists
+
+/-- The tests `apply` performs first (its assertions before any parameter is looked at), for a
+selected line with rule `rule`. -/
+def applicableIntroduction (rule : Nat) (c : Sel) : Bool := rule == ruleSorry && (c.goalImplies || c.goalForall)
+def applicableExistsElim (rule : Nat) (c : Sel) : Bool := c.nfacts == 1 && rule == ruleSorry && c.factExists
+def applicableInstExistsGoal (rule : Nat) (c : Sel) : Bool := rule == ruleSorry && c.goalExists
+
 /-- What a method that goes through `apply_tactic` advertises in `search`: the propositions of the
 gaps of the proof term (`[gap.prop for gap in pt.gaps]`), here the stated sequents of the exported
 `sorry` lines. -/
